@@ -21,6 +21,7 @@ import (
 	"pgregory.net/rapid"
 
 	"verifharness/evid"
+	"verifharness/ref"
 	"verifharness/sim"
 )
 
@@ -319,6 +320,7 @@ func runTCPClient(phases []phase) error {
 	}()
 	var causes []string
 	var lastPeerClose time.Time
+	halfClosed := false
 	var slow []bool
 	accepted := 0
 	var live int32
@@ -403,6 +405,13 @@ func runTCPClient(phases []phase) error {
 			lastPeerClose = time.Now()
 			conn.Close()
 			causes = append(causes, "eof")
+		case "eof-halfclose":
+			// the peer ends its stream and waits for the other side to end its own (shutdown(SHUT_WR)): the node
+			// reads EOF like after a close, and has to let go of its side of the connection all the same
+			lastPeerClose = time.Now()
+			conn.(*net.TCPConn).CloseWrite() //nolint:errcheck
+			halfClosed = true
+			causes = append(causes, "eof")
 		case "reset":
 			conn.(*net.TCPConn).SetLinger(0) //nolint:errcheck
 			lastPeerClose = time.Now()
@@ -426,6 +435,19 @@ func runTCPClient(phases []phase) error {
 		})
 		if ph.kind == "idle" {
 			conn.Close()
+		}
+		if halfClosed && ok {
+			halfClosed = false
+			conn.SetReadDeadline(time.Now().Add(3 * time.Second)) //nolint:errcheck
+			buf := make([]byte, 4096)
+			var rerr error
+			for rerr == nil {
+				_, rerr = conn.Read(buf)
+			}
+			conn.Close()
+			if isTimeout(rerr) {
+				return fmt.Errorf("phase %d: the peer ended its stream (half-close) and waited; the node read EOF and reported the channel closed, but 3 s later its own side of that connection is still open - the transport of a closed channel has not been released (the endpoint reconnects beside it)", pi)
+			}
 		}
 		atomic.AddInt32(&live, -1)
 		if !ok {
@@ -856,7 +878,7 @@ func TestC14Clients(t *testing.T) {
 		}
 		// one scenario of each endpoint kind per case, each going through every fault kind of its endpoint
 		subs := []*sub{
-			{kind: "tcp-client", phases: drawAllPhases(t, []string{"eof", "reset", "idle", "eof-longlived"})},
+			{kind: "tcp-client", phases: drawAllPhases(t, []string{"eof", "reset", "idle", "eof-longlived", "eof-halfclose"})},
 			{kind: "serial", phases: drawAllPhases(t, []string{"readerr", "readerr-stalled", "writefail-then-readerr", "longlived-readerr", "blockedwrite-readerr", "readerr-closefails", "readerr-slowclose"})},
 			{kind: "udp-client", phases: drawAllPhases(t, []string{"answer-then-silent", "answer-then-vanish"})},
 		}
@@ -869,7 +891,7 @@ func TestC14Clients(t *testing.T) {
 			subs[0].phases = append(append(append([]phase{}, ph[:at]...), long), ph[at:]...)
 		}
 		if rapid.Bool().Draw(t, "extra_tcp") {
-			subs = append(subs, &sub{kind: "tcp-client", phases: drawPhases(t, []string{"down", "eof", "eof", "reset", "idle", "eof-longlived"})})
+			subs = append(subs, &sub{kind: "tcp-client", phases: drawPhases(t, []string{"down", "eof", "eof", "reset", "idle", "eof-longlived", "eof-halfclose"})})
 		}
 		if rapid.Bool().Draw(t, "extra_serial") {
 			subs = append(subs, &sub{kind: "serial", phases: drawPhases(t, []string{"down", "readerr", "readerr-stalled", "writefail-then-readerr", "blockedwrite-readerr", "readerr-closefails", "readerr-slowclose"})})
@@ -1038,6 +1060,17 @@ func runServer(udp bool, peers, first []string) error {
 					last = time.Now()
 					if udp && k%2 == 0 {
 						p.Send([]byte{}) //nolint:errcheck // an empty datagram between the frames: no data, no error, no reason to close
+					}
+					if udp && k%3 == 1 {
+						// a peer that batches: 8..12 frames of 40 bytes in one datagram (320..480 bytes, frame boundaries
+						// at every multiple of 40) - more than one frame's worth, well within what a datagram may carry
+						var batch []byte
+						for j := 0; j < 8+(i+k)%5; j++ {
+							bf := ref.Frame{V2: true, Seq: byte(j), Sys: 50 + byte(i+1), Comp: 9, ID: rawTagID, Payload: make([]byte, 28), Checksum: 0x1111}
+							bf.Payload[0], bf.Payload[27] = byte(k), 1
+							batch = append(batch, bf.Bytes()...)
+						}
+						p.Send(batch) //nolint:errcheck
 					}
 					p.Send(tagged(byte(i+1), k, "debug", true, nil, 0).Bytes()) //nolint:errcheck
 					k++
